@@ -378,6 +378,38 @@ func c14(r *Report) {
 			k, isC := constString(c.Call.Args[len(c.Call.Args)-1])
 			return strings.HasPrefix(calleeName(c), "(net/http.Header).") && isC && k == "Via"
 		})
+		// ... and runs for every non-empty Via value: nothing but the emptiness test decides
+		// whether hasLoop is consulted (a cheaper pre-filter on the text misses entries that
+		// differ in protocol version or spacing)
+		{
+			extra := ""
+			for _, ce := range ctrlEdges(loops[0].Block()) {
+				b, isB := ce.If.Cond.(*ssa.BinOp)
+				okCond := false
+				if isB && (b.Op == token.EQL || b.Op == token.NEQ) {
+					if k, isK := constString(b.X); isK && k == "" {
+						okCond = true
+					}
+					if k, isK := constString(b.Y); isK && k == "" {
+						okCond = true
+					}
+				}
+				if isB && !okCond {
+					// len(x) compared with a constant
+					for _, side := range []ssa.Value{b.X, b.Y} {
+						if c, isC := side.(*ssa.Call); isC {
+							if bi, isBi := c.Call.Value.(*ssa.Builtin); isBi && bi.Name() == "len" {
+								okCond = true
+							}
+						}
+					}
+				}
+				if !okCond {
+					extra = r.W.Pos(ce.If.Pos())
+				}
+			}
+			r.Decide("path", "(*M/header.ViaModifier).ModifyRequest: every non-empty Via value is tested for a loop", extra == "", "only the emptiness test guards hasLoop", "another condition ("+extra+") decides whether the loop test runs at all: a Via chain it filters out is forwarded although it names this proxy", loops[0].Pos())
+		}
 		r.Decide("flow", "(*M/header.ViaModifier).ModifyRequest: the loop test examines the request's Via header", okArg, "hasLoop(<Via value>)", "the loop test looks at something else than the Via header", loops[0].Pos())
 		// the loop test compares the whole received-by token, built from the same two parts the
 		// stamp is written from (the proxy name may itself contain the separator)
@@ -461,6 +493,45 @@ func c14(r *Report) {
 	})
 
 	r.Guard("C14.R6", "Via is appended after existing entries; the forwarded headers reflect the client address and original URL", func() {
+		// req.RemoteAddr, which http.ReadRequest leaves empty, is filled in by the exchange
+		// function from the connection before the request modifier runs
+		if handle := w.Fn("", "Proxy.handle"); handle != nil {
+			r.Touch(handle)
+			okRA := false
+			for _, in := range instrs(handle) {
+				st, isSt := in.(*ssa.Store)
+				if !isSt {
+					continue
+				}
+				fa, isFa := st.Addr.(*ssa.FieldAddr)
+				if !isFa || fieldObj(fa).Name() != "RemoteAddr" || fa.X.Type().String() != "*net/http.Request" {
+					continue
+				}
+				fromConn := false
+				for _, sv := range resolveAll(st.Val) {
+					sc, y := sv.(*ssa.Call)
+					if !y || !sc.Call.IsInvoke() || sc.Call.Method.Name() != "String" {
+						continue
+					}
+					for _, av := range resolveAll(sc.Call.Value) {
+						c, y := av.(*ssa.Call)
+						if y && c.Call.IsInvoke() && c.Call.Method.Name() == "RemoteAddr" && isParamVal(c.Call.Value, handle.Params[2]) {
+							fromConn = true
+						}
+					}
+				}
+				before := false
+				for _, c := range calls(handle) {
+					if isReqMod(c) && G(handle).Before(st, c) {
+						before = true
+					}
+				}
+				okRA = fromConn && before
+			}
+			r.Decide("flow", "(*M.Proxy).handle: req.RemoteAddr is the client connection's address", okRA, "conn.RemoteAddr().String() stored before the request modifier", "req.RemoteAddr is not set from the client connection before the modifiers run: X-Forwarded-For carries an empty (or another connection's) address", handle.Pos())
+		} else {
+			r.Undecided("(*M.Proxy).handle", "UNRESOLVED")
+		}
 		// the client address is what net.SplitHostPort makes of RemoteAddr (the only
 		// splitter that understands "[v6]:port"), falling back to RemoteAddr itself
 		if fm0 := w.Fn("header", "NewForwardedModifier$1"); fm0 != nil {
